@@ -794,9 +794,17 @@ class ndarray(object):
             raise ValueError('can only convert an array of size 1 to a Python scalar')
         return self._elems()[0]
 
+    def _base_for(self, cls):
+        """NumPy's rule (PyArray_SetBaseObject): the base of a new view is its parent, collapsed
+        through parents that are themselves views only while they have the new array's type."""
+        obj = self
+        while obj.base is not None and type(obj.base) is cls:
+            obj = obj.base
+        return obj
+
     def _view_as(self, cls, template=None):
         return cls._make(self._buf, self._off, self._shape, self._strides, self._dtype,
-                         base=self if self.base is None else self.base,
+                         base=self._base_for(cls),
                          template=self if template is None else template)
 
     def view(self, cls=None, type=None):
@@ -854,7 +862,7 @@ class ndarray(object):
         cls = builtins.type(self)
         if self._strides == _c_strides(self._shape):
             return cls._make(self._buf, self._off, shape, _c_strides(shape), self._dtype,
-                             base=self if self.base is None else self.base, template=self)
+                             base=self._base_for(cls), template=self)
         return cls._from_flat(self._elems(), shape, self._dtype, template=self)
 
     def ravel(self, order='C'):
@@ -874,14 +882,14 @@ class ndarray(object):
         cls = builtins.type(self)
         return cls._make(self._buf, self._off, [self._shape[a] for a in axes],
                          [self._strides[a] for a in axes], self._dtype,
-                         base=self if self.base is None else self.base, template=self)
+                         base=self._base_for(cls), template=self)
 
     def squeeze(self, axis=None):
         keep = [i for i, s in enumerate(self._shape) if s != 1]
         cls = builtins.type(self)
         return cls._make(self._buf, self._off, [self._shape[i] for i in keep],
                          [self._strides[i] for i in keep], self._dtype,
-                         base=self if self.base is None else self.base, template=self)
+                         base=self._base_for(cls), template=self)
 
     # -- indexing ----------------------------------------------------------
     def _parse_key(self, key):
@@ -1083,7 +1091,7 @@ class ndarray(object):
             if scalar:
                 return _mk_scalar(self._buf[off], self._dtype)
             r = cls._make(self._buf, off, shape, strides, self._dtype,
-                          base=self if self.base is None else self.base, template=self)
+                          base=self._base_for(cls), template=self)
             r.flags.writeable = self.flags.writeable
             return r
         _, out_shape, positions = res
